@@ -73,6 +73,24 @@ func ruleC04Splice(p *Prog, r *Res) {
 				return true
 			})
 			if !lo || !hi {
+				// a splice helper: T = H(T, <v.Position>, …) where H slices its parameter at its position parameter
+				if c, ok := ast.Unparen(as.Rhs[0]).(*ast.CallExpr); ok {
+					ti, pi := -1, -1
+					for i, a := range c.Args {
+						if sameObj(info, a, target) {
+							ti = i
+						} else if usesPos(a) {
+							pi = i
+						}
+					}
+					if fn := p.Callee(f.Pkg, c); fn != nil && ti >= 0 && pi >= 0 {
+						if h := p.FnOfObj(fn); h != nil && h.Body() != nil && isSpliceHelper(h, ti, pi) {
+							lo, hi = true, true
+						}
+					}
+				}
+			}
+			if !lo || !hi {
 				return true
 			}
 			n++
@@ -133,4 +151,36 @@ func ruleC04Splice(p *Prog, r *Res) {
 	}
 	r.Floor(rule, 2, n)
 	r.Assume("C04-e: the parser records DataConditionElement.Variables in ascending Position order (query/conditions.go, query/parser.go append while the expression text grows)")
+}
+
+// isSpliceHelper: h cuts its parameter #ti at its parameter #pi (both param[:pos] and param[pos:] occur).
+func isSpliceHelper(h *Fn, ti, pi int) bool {
+	info := h.Pkg.TypesInfo
+	t, pos := paramObj(h, ti), paramObj(h, pi)
+	if t == nil || pos == nil {
+		return false
+	}
+	mentions := func(e ast.Expr) bool {
+		found := false
+		ast.Inspect(e, func(x ast.Node) bool {
+			if id, ok := x.(*ast.Ident); ok && info.Uses[id] == pos {
+				found = true
+			}
+			return !found
+		})
+		return found
+	}
+	lo, hi := false, false
+	ast.Inspect(h.Body(), func(x ast.Node) bool {
+		if se, ok := x.(*ast.SliceExpr); ok && sameObj(info, se.X, t) {
+			if se.Low == nil && se.High != nil && mentions(se.High) {
+				lo = true
+			}
+			if se.High == nil && se.Low != nil && mentions(se.Low) {
+				hi = true
+			}
+		}
+		return true
+	})
+	return lo && hi
 }
